@@ -447,6 +447,12 @@ func (g *c12Gen) program(class string) c12Program {
 		// at most one unmatched row: the appended order cannot vary
 		p.Writes = true
 		p.SQL = fmt.Sprintf("REPLACE INTO %s (id, v, s) USING (id) VALUES (%d, 777, 'r'), (%d, 778, 'r'), (%d, 779, 'new')", t.Name, g.r.Intn(t.Size), g.r.Intn(t.Size), 500000)
+	case "replace-dup-keys":
+		// the USING column holds the same value in many records, spread over the parts of several goroutines:
+		// every one of them is replaced, whichever goroutine comes first
+		p.Writes = true
+		kk := g.r.Intn(10)
+		p.SQL = fmt.Sprintf("REPLACE INTO %s (k, v, s) USING (k) VALUES (%d, 4242, 'dup'), (%d, 4343, 'dup2'), (999999, 1, 'new')", t.Name, kk, kk+1)
 	case "replace":
 		p.Writes = true
 		p.Stream = "replace-map-order"
@@ -641,7 +647,7 @@ func runC12(seed int64, tier string, out string) {
 	}
 
 	classes := []string{"where", "where-error", "order", "distinct", "aggregate-all", "group-ordered", "group-ordered-incomparable", "group", "join", "join", "join-big", "lateral", "subquery", "subquery-many-refs",
-		"analytic", "analytic", "analytic-ties", "analytic-ties", "setop", "ltsv", "jsonl", "insert-select", "update", "delete", "create-as", "alter-add", "mixed", "replace-one", "replace"}
+		"analytic", "analytic", "analytic-ties", "analytic-ties", "setop", "ltsv", "jsonl", "insert-select", "update", "delete", "create-as", "alter-add", "mixed", "replace-one", "replace", "replace-dup-keys"}
 	rounds, reps := 6, 3
 	if tier == "thorough" {
 		rounds, reps = 24, 5
